@@ -31,6 +31,14 @@ pub struct SeqPlan {
     pub walk_every: u8,
     /// re-read one random earlier version after every operation (C07 temporal oracle)
     pub audit: bool,
+    /// server instances serving the history alternately (own storage object, own clock skew)
+    #[serde(default)]
+    pub instances: u8,
+    #[serde(default)]
+    pub skews_us: Vec<i64>,
+    /// which instance serves operation i (empty = always the first)
+    #[serde(default)]
+    pub route: Vec<u8>,
 }
 
 pub struct World {
@@ -62,6 +70,13 @@ pub struct World {
     pub next_faults: Vec<crate::world::StorageFault>,
     /// ids to probe in projections besides those the model knows (e.g. an id whose response was lost)
     pub extra_ids: std::collections::BTreeSet<Id>,
+    /// further server instances on the same storage (SQLite: own storage object on the same
+    /// directory; in-memory: own `Server` over the shared storage), each with its own clock skew.
+    /// The instance in `inst`/`app` is the one currently serving; `switch_to` swaps.
+    pub others: Vec<(Instance, Option<HttpApp>)>,
+    pub cur_inst: usize,
+    pub n_inst: usize,
+    pub skews: Vec<i64>,
 }
 
 pub struct StepOut {
@@ -113,6 +128,10 @@ impl World {
             tolerate_empty_clients: false,
             next_faults: Vec::new(),
             extra_ids: Default::default(),
+            others: Vec::new(),
+            cur_inst: 0,
+            n_inst: 1,
+            skews: vec![0],
         };
         w.proj = w.take_projection()?;
         Ok(w)
@@ -156,6 +175,10 @@ impl World {
             tolerate_empty_clients: false,
             next_faults: Vec::new(),
             extra_ids: Default::default(),
+            others: Vec::new(),
+            cur_inst: 0,
+            n_inst: 1,
+            skews: vec![0],
         };
         w.proj = w.take_projection()?;
         Ok(w)
@@ -165,17 +188,74 @@ impl World {
         project(&self.store.raw, &self.clients, &self.ids())
     }
 
+    fn make_instance(&self, idx: usize, allow: Option<HashSet<Uuid>>, cfg: Cfg) -> anyhow::Result<(Instance, Option<HttpApp>)> {
+        let raw: std::sync::Arc<dyn taskchampion_sync_server_core::Storage> = match (&self.store.dir, idx) {
+            (Some(d), i) if i > 0 => std::sync::Arc::new(taskchampion_sync_server_storage_sqlite::SqliteStorage::new(d)?),
+            _ => self.store.raw.clone(),
+        };
+        let inst = Instance::new(raw, cfg, allow, self.skews.get(idx).copied().unwrap_or(0));
+        let app = if self.entry == Entry::Http { Some(HttpApp::new(&inst.web)) } else { None };
+        Ok((inst, app))
+    }
+
+    /// Serve through `n` instances (1 = the default single server) with the given clock skews.
+    pub fn set_instances(&mut self, n: usize, skews: Vec<i64>) -> anyhow::Result<()> {
+        self.n_inst = n.max(1);
+        self.skews = skews;
+        self.skews.resize(self.n_inst, 0);
+        self.rebuild_instances(self.allow.clone(), self.cfg)
+    }
+
+    fn rebuild_instances(&mut self, allow: Option<HashSet<Uuid>>, cfg: Cfg) -> anyhow::Result<()> {
+        self.app = None;
+        self.others.clear();
+        let (i0, a0) = self.make_instance(0, allow.clone(), cfg)?;
+        self.inst = i0;
+        self.app = a0;
+        self.cur_inst = 0;
+        for i in 1..self.n_inst {
+            let x = self.make_instance(i, allow.clone(), cfg)?;
+            self.others.push(x);
+        }
+        Ok(())
+    }
+
+    /// Make instance `i` the serving one.
+    pub fn switch_to(&mut self, i: usize) {
+        let i = i % self.n_inst;
+        if i == self.cur_inst {
+            return;
+        }
+        // others[k] holds instance k+1, except that the slot of the currently serving instance
+        // holds instance 0 after a swap; keep it simple: rotate through a canonical layout
+        // canonical: put current back to its slot, then take i out
+        if self.cur_inst != 0 {
+            let slot = self.cur_inst - 1;
+            std::mem::swap(&mut self.inst, &mut self.others[slot].0);
+            std::mem::swap(&mut self.app, &mut self.others[slot].1);
+            self.cur_inst = 0;
+        }
+        if i != 0 {
+            let slot = i - 1;
+            std::mem::swap(&mut self.inst, &mut self.others[slot].0);
+            std::mem::swap(&mut self.app, &mut self.others[slot].1);
+            self.cur_inst = i;
+        }
+    }
+
+    /// The clock as the serving instance reads it.
+    pub fn inst_now(&self) -> i64 {
+        sched::now_us() + self.inst.skew_us
+    }
+
     pub fn restart(&mut self, allow: Option<HashSet<Uuid>>, cfg: Cfg) -> anyhow::Result<()> {
         self.app = None;
+        self.others.clear();
         self.store.reopen()?;
         self.allow = allow.clone();
         self.cfg = cfg;
         self.model.cfg = cfg;
-        self.inst = Instance::new(self.store.raw.clone(), cfg, allow, 0);
-        if self.entry == Entry::Http {
-            self.app = Some(HttpApp::new(&self.inst.web));
-        }
-        Ok(())
+        self.rebuild_instances(allow, cfg)
     }
 
     /// Issue a concrete request through the world's entry point (no oracle).
@@ -343,6 +423,25 @@ impl World {
                 out.bump(if *us < 0 { "clock.jump_back" } else { "clock.jump_forward" });
                 return None;
             }
+            Op::Reconfig { days, versions } => {
+                // restart with other snapshot targets (both backends: a new server over the same storage)
+                let cfg = Cfg { days: *days, versions: *versions };
+                if let Err(e) = self.restart(self.allow.clone(), cfg) {
+                    out.violations.push(viol(&["C13", "C12"], "restart.failed", format!("restart with new targets failed: {e:#}")));
+                    return None;
+                }
+                out.bump("fault.restart_with_new_snapshot_targets");
+                match self.take_projection() {
+                    Ok(p) => {
+                        if let Some(d) = proj_diff(&self.proj, &p) {
+                            out.violations.push(viol(&["C13", "C12"], "restart.changed_state", format!("state changed across a restart with new targets: {d}")));
+                        }
+                        self.proj = p;
+                    }
+                    Err(e) => out.violations.push(viol(&["C13"], "restart.unreadable", format!("{e:#}"))),
+                }
+                return None;
+            }
             Op::Restart => {
                 if self.store.backend == Backend::Sqlite {
                     if let Err(e) = self.restart(self.allow.clone(), self.cfg) {
@@ -431,9 +530,9 @@ impl World {
             _ => None,
         };
         let state_class = self.state_class(&cid);
-        let t = sched::now_us();
+        let t = self.inst_now();
         let resp = self.issue(&req, ch, out);
-        let t2 = sched::now_us();
+        let t2 = self.inst_now();
         let log = self.inst.ctl.take_log();
         for m in self.model.apply(&req, &resp, t, t2, http) {
             out.violations.push(m.into());
@@ -591,7 +690,7 @@ impl World {
         let cl = self.model.client(&c).unwrap();
         let v = &cl.versions[r.below(cl.versions.len() as u64) as usize];
         let req = Req::GetChild { c, parent: v.parent };
-        let t = sched::now_us();
+        let t = self.inst_now();
         let resp = self.issue(&req, &Chunking::Whole, out);
         for m in self.model.apply(&req, &resp, t, t, self.entry == Entry::Http) {
             let mut v: Violation = m.into();
@@ -619,7 +718,7 @@ impl World {
             let mut end = None;
             for _ in 0..cl.versions.len() + 2 {
                 let req = Req::GetChild { c, parent: cur };
-                let t = sched::now_us();
+                let t = self.inst_now();
                 let resp = self.issue(&req, &Chunking::Whole, out);
                 for m in self.model.apply(&req, &resp, t, t, http) {
                     out.violations.push(m.into());
@@ -657,7 +756,7 @@ impl World {
             }
             // C11: snapshot is a usable base
             let req = Req::GetSnapshot { c };
-            let t = sched::now_us();
+            let t = self.inst_now();
             let resp = self.issue(&req, &Chunking::Whole, out);
             for m in self.model.apply(&req, &resp, t, t, http) {
                 out.violations.push(m.into());
@@ -844,7 +943,10 @@ pub fn gen_ops(r: &mut Rng, p: &GenParams, n_clients: u8, cfg: &Cfg, page: u32) 
             3 => ops.push(Op::GetSnapshot { c }),
             4 => ops.push(Op::Advance { us: gen_advance(r, cfg, p.whole_sec) }),
             5 => {
-                if p.allow_restart && p.backend == Backend::Sqlite {
+                if p.allow_restart && r.chance(40, 100) {
+                    let c2 = gen_cfg(r, p.focus);
+                    ops.push(Op::Reconfig { days: c2.days, versions: c2.versions });
+                } else if p.allow_restart && p.backend == Backend::Sqlite {
                     ops.push(Op::Restart);
                 }
             }
@@ -968,6 +1070,20 @@ pub fn gen_plan(seed: u64, backend: Backend, entry: Entry, focus: Focus, thoroug
         }
     }
     let start_us = if whole_sec { r.range(0, 86_400) * 1_000_000 } else { r.range(0, 86_400_000_000) };
+    let instances = match backend {
+        Backend::Sqlite => 1 + r.weighted(&[60, 30, 10]) as u8,
+        Backend::Memory => 1 + r.weighted(&[75, 25]) as u8,
+    };
+    let skews_us: Vec<i64> = (0..instances)
+        .map(|_| match r.below(10) {
+            0..=5 => 0,
+            6 | 7 => r.range(-10_000_000, 10_000_000),
+            8 => r.range(-3, 3) * DAY_US,
+            _ => r.range(-400, 400) * DAY_US,
+        })
+        .map(|v| if whole_sec { v / 1_000_000 * 1_000_000 } else { v })
+        .collect();
+    let route: Vec<u8> = if instances > 1 { (0..ops.len()).map(|_| r.below(instances as u64) as u8).collect() } else { vec![] };
     SeqPlan {
         seed,
         backend,
@@ -979,6 +1095,9 @@ pub fn gen_plan(seed: u64, backend: Backend, entry: Entry, focus: Focus, thoroug
         ops,
         walk_every: r.range(4, 12) as u8,
         audit: r.chance(70, 100),
+        instances,
+        skews_us,
+        route,
     }
 }
 
@@ -995,10 +1114,22 @@ pub fn exec(plan: &SeqPlan) -> RunOut {
             return out;
         }
     };
+    if plan.instances > 1 {
+        if let Err(e) = w.set_instances(plan.instances as usize, plan.skews_us.clone()) {
+            out.violations.push(viol(&["C03", "C13"], "instances.cannot_open", format!("opening {} instances on one storage failed: {e:#}", plan.instances)));
+            return out;
+        }
+        out.bump(&format!("cfg.instances.{}", plan.instances));
+    } else if plan.skews_us.first().copied().unwrap_or(0) != 0 {
+        let _ = w.set_instances(1, plan.skews_us.clone());
+    }
     let mut audit = Rng::stream(plan.seed, "audit");
     let mut shape = Digest::default();
     let mut accepted = 0u32;
     for (i, op) in plan.ops.iter().enumerate() {
+        if let Some(k) = plan.route.get(i) {
+            w.switch_to(*k as usize);
+        }
         if let Some(s) = w.step(op, &mut out) {
             shape.add_str(s.req.kind());
             shape.add_str(op_argclass(op));
@@ -1053,6 +1184,9 @@ pub fn shrink(plan: &SeqPlan) -> Vec<SeqPlan> {
         while i + chunk <= n {
             let mut p = plan.clone();
             p.ops.drain(i..i + chunk);
+            if p.route.len() >= i + chunk {
+                p.route.drain(i..i + chunk);
+            }
             c.push(p);
             i += chunk;
         }
@@ -1064,6 +1198,17 @@ pub fn shrink(plan: &SeqPlan) -> Vec<SeqPlan> {
     if plan.audit {
         let mut p = plan.clone();
         p.audit = false;
+        c.push(p);
+    }
+    if plan.instances > 1 {
+        let mut p = plan.clone();
+        p.instances = 1;
+        p.route.clear();
+        c.push(p);
+    }
+    if plan.skews_us.iter().any(|s| *s != 0) {
+        let mut p = plan.clone();
+        p.skews_us = vec![0; plan.skews_us.len()];
         c.push(p);
     }
     if plan.page_size.is_some() {
